@@ -409,6 +409,20 @@ def _history_check(a):
     bad = differs(_design_of(ref_m), "set_design-and-find_design-again")
     if bad:
         return False, bad
+    # ... and with another flow specification set in between (the final set_design is what counts)
+    ref_m.set_design(flow_rate=1.7, flow_type_str="system" if a.get("flow_type", "borehole") == "borehole" else "borehole")
+    ref_m.set_design(flow_rate=a.get("flow", 0.3), flow_type_str=a.get("flow_type", "borehole"))
+    ref_m.find_design()
+    bad = differs(_design_of(ref_m), "set_design-with-another-flow-specification-in-between")
+    if bad:
+        return False, bad
+    # ... and a manager that was first configured with the other flow specification and then re-configured with this one
+    m2 = build_manager({**a, "flow": 1.7, "flow_type": "system" if a.get("flow_type", "borehole") == "borehole" else "borehole"})
+    m2.set_design(flow_rate=a.get("flow", 0.3), flow_type_str=a.get("flow_type", "borehole"))
+    m2.find_design()
+    bad = differs(_design_of(m2), "manager-first-configured-with-the-other-flow-specification")
+    if bad:
+        return False, bad
     # 3. a sibling design in this process that differs from the one just computed ONLY in a thermal property (same field domain, same heights, same flow, same
     #    loads): it must come out exactly as in a fresh interpreter that has never seen the first design
     prop_name, prop_val = (("k_grout", 2.1), ("k_soil", 3.0), ("k_pipe", 0.62), ("rho_cp_soil", 3.1e6))[a.get("perm", 1) % 4]
@@ -441,4 +455,4 @@ def _history_gen(rng):
 
 
 native("ghedesigner.manager:GHEManager.find_design", _history_check, _history_gen, None,
-       bound="real GHEManager: reference run vs. find_design twice, set_design+find_design again, a sibling design differing only in one thermal property (grout / soil / pipe conductivity, soil heat capacity) vs. the same sibling in a fresh interpreter, an unrelated design earlier in the process, shuffled setter order with nominal borehole heights 55.5 / 310 m: field, height and temperatures bit-identical")
+       bound="real GHEManager: reference run vs. find_design twice, set_design+find_design again (also with another flow specification set in between), a sibling design differing only in one thermal property (grout / soil / pipe conductivity, soil heat capacity) vs. the same sibling in a fresh interpreter, an unrelated design earlier in the process, shuffled setter order with nominal borehole heights 55.5 / 310 m: field, height and temperatures bit-identical")
